@@ -9,6 +9,7 @@ import (
 	"fmt"
 	"go/ast"
 	"go/token"
+	"go/types"
 	"strings"
 )
 
@@ -156,6 +157,209 @@ func c02a(c *Ctx, r *Report) {
 		}
 		r.Check(ok && stored && shrinks, clause, "R2 COVERAGE", f.Name+"/fold-leaves-one-action", c.pos(fold.Pos()),
 			"the pairwise fold replaces the first two candidates by the winner until one is left, and stores it back into the cell", "the conflict fold does not end with exactly one action stored back into the cell")
+	}
+	// the fold runs for every cell with two or more candidates
+	if fl, _ := findFoldLoop(info, f.Decl); fl != nil {
+		pm := parentMap(f.Decl.Body)
+		why := ""
+		for cur := ast.Node(fl); cur != nil && why == ""; cur = pm[cur] {
+			is, ok := pm[cur].(*ast.IfStmt)
+			if !ok {
+				continue
+			}
+			if cur != ast.Node(is.Body) {
+				why = "the fold sits in an else branch"
+				break
+			}
+			// the condition must hold for every length ≥ 2: evaluate `len(x) OP k`
+			be, ok := unparen(is.Cond).(*ast.BinaryExpr)
+			if !ok {
+				why = "the fold is guarded by `" + exprString(is.Cond) + "`, not by a test of the number of candidates"
+				break
+			}
+			call, okc := unparen(be.X).(*ast.CallExpr)
+			k, isC := constInt(info, be.Y)
+			if !okc || builtinName(info, call) != "len" || !isC {
+				why = "the fold is guarded by `" + exprString(is.Cond) + "`, not by a test of the number of candidates"
+				break
+			}
+			for _, n := range []int64{2, 3, 7} {
+				v := false
+				switch be.Op {
+				case token.GTR:
+					v = n > k
+				case token.GEQ:
+					v = n >= k
+				case token.NEQ:
+					v = n != k
+				case token.LSS:
+					v = n < k
+				case token.LEQ:
+					v = n <= k
+				case token.EQL:
+					v = n == k
+				}
+				if !v {
+					why = fmt.Sprintf("cells with %d candidate actions are not folded (guard `%s`): the first candidate is taken without consulting precedence or the default rules", n, exprString(is.Cond))
+				}
+			}
+		}
+		r.Check(why == "", clause, "R2 COVERAGE", f.Name+"/fold-covers-every-conflict", c.pos(fl.Pos()),
+			"every cell with two or more candidate actions goes through the fold", why)
+	}
+	// GenTable: transitions are grouped by their source state, every state gets exactly one row
+	if g := c.need(r, clause, "LALR", "LALR1", "GenTable"); g != nil {
+		cf := newCoverFn(g)
+		ginfo := cf.info
+		// grouping
+		why := "no loop that groups the transitions by source state"
+		for _, rs := range cf.rangesOver(nil, func(e ast.Expr) bool { return fieldNamed(ginfo, e, "trans") }) {
+			tr := identObj(ginfo, rs.Value)
+			var stateVar types.Object
+			if outer, ok := cf.pm[cf.pm[rs]].(*ast.RangeStmt); ok && fieldNamed(ginfo, outer.X, "LR0Closure") && outer.Value == nil {
+				stateVar = identObj(ginfo, outer.Key)
+				if !cf.unconditional(outer, g.Decl.Body) || !noSkips(outer.Body) {
+					continue
+				}
+			}
+			if tr == nil || stateVar == nil || !noSkips(rs.Body) {
+				continue
+			}
+			ast.Inspect(rs.Body, func(n ast.Node) bool {
+				as, ok := n.(*ast.AssignStmt)
+				if !ok || len(as.Lhs) != 1 || len(as.Rhs) != 1 {
+					return true
+				}
+				ix, ok := unparen(as.Lhs[0]).(*ast.IndexExpr)
+				if !ok || identObj(ginfo, ix.Index) != stateVar {
+					return true
+				}
+				call, ok := unparen(as.Rhs[0]).(*ast.CallExpr)
+				if !ok || builtinName(ginfo, call) != "append" || len(call.Args) != 2 || exprString(call.Args[0]) != exprString(as.Lhs[0]) || identObj(ginfo, call.Args[1]) != tr {
+					return true
+				}
+				atoms := guardAtoms(c, g, as)
+				if len(atoms) == 1 && !strings.HasPrefix(atoms[0], "!") && strings.Contains(atoms[0], ".q") && strings.Contains(atoms[0], " == ") {
+					why = ""
+				} else {
+					why = fmt.Sprintf("a transition joins a state's group under %v, not exactly when its source is that state", atoms)
+				}
+				return true
+			})
+		}
+		r.Check(why == "", clause, "R2 COVERAGE", g.Name+"/transitions-grouped-by-source-state", c.pos(g.Decl.Pos()),
+			"for every state, exactly the transitions whose source is that state are handed to CheckAndResolveConflict", why)
+		// rows
+		why = "no loop over all states that appends one row each"
+		for _, st := range g.Decl.Body.List {
+			full, body, qv := fullRangeLoop(ginfo, st)
+			if full == nil || !fieldNamed(ginfo, full, "LR0Closure") {
+				continue
+			}
+			pe := newPathEnum(ginfo)
+			paths, err := pe.Enumerate(body.List)
+			if err != nil {
+				why = err.Error()
+				continue
+			}
+			why = ""
+			usesState := false
+			ast.Inspect(body, func(n ast.Node) bool {
+				if call, ok := n.(*ast.CallExpr); ok {
+					if fn := callee(ginfo, call); fn != nil && fn.Name() == "CheckAndResolveConflict" && len(call.Args) == 2 && identObj(ginfo, call.Args[0]) == qv {
+						if ix, ok := unparen(call.Args[1]).(*ast.IndexExpr); ok && identObj(ginfo, ix.Index) == qv {
+							usesState = true
+						}
+					}
+				}
+				return true
+			})
+			if !usesState {
+				why = "a row is not computed from the loop's own state and its own transition group"
+			}
+			for _, p := range paths {
+				appends := 0
+				for _, t := range p.Env {
+					if t != nil && t.Op == "call" && t.Name == "append" && len(t.Args) == 2 && strings.HasSuffix(t.Args[0].String(), t.Args[0].String()) {
+						if t.Args[0].Op == "leaf" {
+							appends++
+						}
+					}
+				}
+				switch p.Kind {
+				case "fall", "continue":
+					if appends != 1 {
+						why = fmt.Sprintf("a state's iteration can end without appending exactly one row (path [%s])", p.CondString())
+					}
+				case "return":
+					if len(p.Vals) != 2 || p.Vals[1].String() == "nil" {
+						why = "the row loop can return without an error before all states have a row"
+					}
+				default:
+					why = "the row loop can be left by " + p.Kind
+				}
+			}
+		}
+		r.Check(why == "", clause, "R2 COVERAGE", g.Name+"/one-row-per-state", c.pos(g.Decl.Pos()),
+			"the table gets exactly one row per state, for states 0 … n−1 in order (the loop starts at 0 and covers len(LR0Closure))", why)
+	}
+	// the table GenTable returned is the one that is split, packed, kept as GTable and emitted
+	if cl := c.need(r, clause, "LALR", "", "ComputeLALR"); cl != nil {
+		cinfo := cl.Pkg.TypesInfo
+		var tabObj types.Object
+		var split *ast.CallExpr
+		ast.Inspect(cl.Decl.Body, func(n ast.Node) bool {
+			switch x := n.(type) {
+			case *ast.AssignStmt:
+				if len(x.Rhs) == 1 {
+					if call, ok := unparen(x.Rhs[0]).(*ast.CallExpr); ok {
+						if fn := callee(cinfo, call); fn != nil && fn.Name() == "GenTable" && len(x.Lhs) == 2 {
+							tabObj = identObj(cinfo, x.Lhs[0])
+						}
+					}
+				}
+			case *ast.CallExpr:
+				if fn := callee(cinfo, x); fn != nil && fn.Name() == "TrySplitTable" {
+					split = x
+				}
+			}
+			return true
+		})
+		why := ""
+		switch {
+		case tabObj == nil || split == nil:
+			why = "GenTable's result or the TrySplitTable call was not found"
+		case len(split.Args) != 1 || identObj(cinfo, split.Args[0]) != tabObj:
+			why = "TrySplitTable is not given the table GenTable returned"
+		default:
+			// guards of the call: only the error test of GenTable
+			for _, a := range guardAtoms(c, cl, split) {
+				if !strings.Contains(a, "nil") {
+					why = "TrySplitTable(tab) runs only under `" + a + "`"
+				}
+			}
+		}
+		if ts := c.need(r, clause, "LALR", "LALR1", "TrySplitTable"); ts != nil && why == "" {
+			tinfo := ts.Pkg.TypesInfo
+			ps := paramObjs(tinfo, ts.Decl)
+			kept := false
+			for _, st := range ts.Decl.Body.List {
+				if leaves(st) {
+					break
+				}
+				if is, ok := st.(*ast.IfStmt); ok && endsInExit(is.Body) {
+					break
+				}
+				if as, ok := st.(*ast.AssignStmt); ok && len(as.Lhs) == 1 && len(as.Rhs) == 1 && fieldNamed(tinfo, as.Lhs[0], "GTable") && len(ps) == 1 && identObj(tinfo, as.Rhs[0]) == ps[0] {
+					kept = true
+				}
+			}
+			if !kept {
+				why = "TrySplitTable does not keep its argument as GTable before anything can return: the dense output and the diagram would show another (or no) table"
+			}
+		}
+		r.Check(why == "", clause, "R1 PROVENANCE", cl.Name+"/generated-table-is-the-emitted-table", c.pos(cl.Decl.Pos()),
+			"the table returned by GenTable is handed to TrySplitTable on the success path and kept there as GTable (the dense output) before it is split and packed", why)
 	}
 	// every reduce transition gets a lookahead set
 	if g := c.need(r, clause, "LALR", "LALR1", "CalcLookAheadSet"); g != nil {
